@@ -86,6 +86,9 @@ func Bytes(name string, n int) []byte {
 
 func String(name string, n int) string { return string(Bytes(name, n)) }
 
+// StringIn is a string of n bytes, each constrained to [lo, hi] (no forking).
+func StringIn(name string, n int, lo, hi byte) string { return string(Bytes(name, n)) }
+
 // Enum is a string drawn from dom by a symbolic index (no fork until used).
 func Enum(name string, dom []string) string { return dom[get(name)] }
 
